@@ -31,8 +31,9 @@ structure DataChannel where
 
 namespace DataChannel
 
-/-- `DataChannel::Reset` — note that `disable_interrupt` is *not* reset. -/
-def reset (c : DataChannel) : DataChannel := { c with ready := false, data := 0 }
+/-- `DataChannel::Reset` (the pinned upstream code did not clear `disable_interrupt`; repaired in
+/repo, see `Teakra.Bus.resetUpstream`). -/
+def reset (c : DataChannel) : DataChannel := { c with ready := false, data := 0, disableInterrupt := 0 }
 
 /-- `DataChannel::Send`; the `Bool` is "`handler()` was called". -/
 def send (c : DataChannel) (data : U16) : DataChannel × Bool :=
